@@ -222,7 +222,7 @@ def run(ctx):
                    'NOT restored on every path after seeking to the chunk'), None)
 
     # ------------------------------------------------------------------ SET-GATE
-    ctx.rule('SET-GATE', 'sf_set_chunk / sf_get_chunk_data / sf_get_chunk_size reject NULL chunk_info (and NULL data where required) before dispatching to the container hook, '
+    ctx.rule('SET-GATE', 'sf_set_chunk / sf_get_chunk_data / sf_get_chunk_size reject NULL chunk_info (and NULL data where required) before dispatching to the container hook, sf_set_chunk dispatches only while psf->have_written == 0 (custom chunks live in the header), '
              'and every set_chunk hook stores through psf_save_write_chunk on the handle\'s own wchunks table', floor=5)
     for name, need_data in (('sf_set_chunk', True), ('sf_get_chunk_data', True), ('sf_get_chunk_size', False)):
         f = prog.fn(name, 'sndfile.c')
@@ -243,6 +243,35 @@ def run(ctx):
                     if 'cond' in blk and ('%s->data == 0' % ci) in f.s(blk['cond']).replace('NULL', '0') and f.cfg.dominates((blk['id'], len(blk['elems'])), c):
                         ok2 = True
                 ctx.ob('SET-GATE', name + ':data', ok2, f.loc(c), '%s->data %s before dispatch' % (ci, 'checked' if ok2 else 'NOT checked'), None)
+    # a chunk set after audio was written must be refused: every container serialises custom chunks inside the header,
+    # which cannot grow once data follows it (a larger header rewritten at close overwrites the start of the audio)
+    f = prog.fn('sf_set_chunk', 'sndfile.c')
+    bd = Bounds(prog, f, eff)
+    hw = [n for n in f.walk() if n['k'] == 'MemberExpr' and n.get('n') == 'have_written']
+    for c in [c for c in f.calls() if 'callee' not in c]:
+        if hw:
+            b = bd.ev_at(hw[0], f.cfg.point(c))
+            ok = b.hi is not None and b.hi <= 0 and b.lo is not None and b.lo >= 0
+        else:
+            ok, b = False, None
+        ctx.ob('SET-GATE', 'sf_set_chunk:have_written', ok, f.loc(c), 'the set_chunk hook is reached only with psf->have_written == 0' if ok else
+               'the set_chunk hook is reached after audio data was written (psf->have_written not tested): the header rewrite at close grows over the start of the audio', repr(b))
+    whs = {}
+    for g in prog.slot_fns('set_chunk'):
+        base = g.file.split('/')[-1]
+        for w in prog.slot_fns('write_header'):
+            if w.file == g.file:
+                def uses(fn):
+                    return [x for x in fn.walk() if x['k'] == 'MemberExpr' and x.get('n') == 'wchunks']
+                cc = [(w, x) for x in uses(w)]
+                for x in w.calls():
+                    g2 = prog.fn_opt(x.get('callee') or '', None) if x.get('callee') else None
+                    if g2 is not None and uses(g2):
+                        cc.append((w, x))
+                whs[base] = (w, cc)
+    for base, (w, cc) in sorted(whs.items()):
+        ctx.ob('SET-GATE', base + ':chunks-in-header', bool(cc), w.loc(cc[0][1]) if cc else w.loc(w.body),
+               '%s serialises the wchunks table as part of the header%s: the reason late chunks must be refused' % (w.name, '' if cc else ' — NO use of wchunks found'), None)
     sfns = prog.slot_fns('set_chunk')
     ctx.require(len(sfns) >= 4, 'set_chunk slot has %d functions' % len(sfns))
     for f in sfns:
